@@ -46,6 +46,8 @@ def session(rng, njoin, nops):
     for n in names:
         ops += [f"{n} check_connection 2 F", f"{n} check_connection 2 T"]
     ops += [f"m check_connection 1 {rng.choice('TF')}"]      # the master is connected by definition
+    # write() by address: an invalid destination is refused without any transmission
+    ops += [f"{rng.choice(names)} mwrite {rng.choice([0o6, 0o7, 0o20, 0o106, 0o11111, 65535])} {rng.choice([1, 70])} {rbytes(rng, 3)}"]
     # the same calls with their optional parameters omitted (judge_defaults: must equal the documented defaults)
     ops += [f"{rng.choice(names)} dflt check_connection", f"{rng.choice(names)} dflt lookup_node_id",
             f"{rng.choice(names)} dflt lookup_address"]
@@ -396,6 +398,11 @@ class C17(PropCheck):
                             exp = res   # the lease of a node whose route is gone still is the master's mapping
                     if res != exp:
                         what = f"op {k}: {x}.lookup_node_id({t[2]}) returned {res}, documented answer {exp}"
+                elif t[1] == "mwrite" and not valid_addr(int(t[2])) and int(t[2]) not in (0, 0o100, 0o10, 0o1000, DEFAULT):
+                    f_ = part.split(" ~ ")
+                    if res != "F" or (len(f_) == 4 and f_[3] != "[]"):
+                        what = (f"op {k}: {x}.write() to the invalid address {oct(int(t[2]))} returned {res}"
+                                + ("" if len(f_) != 4 or f_[3] == "[]" else " and transmitted " + f_[3][:80]))
                 elif t[1] == "release":
                     if res != ("T" if conn(x) else "F"):
                         what = f"op {k}: {x}.release_address() returned {res} (connected before: {conn(x)})"
